@@ -2,7 +2,7 @@
    what the implementation was observed to do, checked against the model. *)
 From Coq Require Import String List NArith ZArith Bool.
 From J5V.lib Require Import Outcome Corr Json.
-From J5V.model Require Import CodecTypes CodecDecScalar CodecDec CodecDecQuery CodecDecTree CodecDecTime.
+From J5V.model Require Import CodecTypes CodecDecScalar CodecDec CodecDecQuery CodecDecTree CodecDecTime CodecDecCommute.
 From J5V.lib Require Decimal.
 Import ListNotations.
 Local Open Scope N_scope.
@@ -40,7 +40,11 @@ Inductive deccase :=
 (* decimal.NewFromString(s): (d.String(), d.Exponent()), or None when it returns an error; the text
    is only compared when the exponent is within the decoder's bound (writing it out is what the
    bound avoids) *)
-| CDecimal (s : bytes) (r : option (bytes * Z)).
+| CDecimal (s : bytes) (r : option (bytes * Z))
+(* an environment of the run (dumped from the real reflector): well-formed, and satisfying the schema
+   conditions of the exactness (env_separate) and member-reordering (env_commute) theorems; checked once
+   per environment, the decode cases refer to the same definitions *)
+| CEnv (e : env).
 
 Fixpoint insert_all {A} (x : A) (l : list A) : list (list A) :=
   match l with
@@ -90,9 +94,10 @@ Definition dec_check (c : deccase) : bool :=
   | CLex doc toks me =>
       let '(ts, me') := lex doc in tokens_eqb ts toks && Bool.eqb me me'
   | CDec e root doc ft tmt dt obs =>
-      env_wf e && env_separate e && time_table_ok tmt && decimal_table_ok dt && obs_matches (decode_bytes (orc_of ft tmt dt) e root doc) obs
+      env_wf e && time_table_ok tmt && decimal_table_ok dt && obs_matches (decode_bytes (orc_of ft tmt dt) e root doc) obs
   | CQuery e root kvs ft tmt dt obs =>
       env_wf e && time_table_ok tmt && decimal_table_ok dt && existsb (fun p => obs_matches (decode_query (orc_of ft tmt dt) e root p) obs) (perms kvs)
   | CTime s r => time_eqb (go_time_parse s) r
   | CDecimal s r => decimal_obs_ok s r
+  | CEnv e => env_wf e && env_separate e && env_commute e
   end.
